@@ -179,6 +179,9 @@ class Ctx:
                     if any(l in derived for l in rvalue_locals(s["rv"])):
                         ok = True
                         where.append(f"return value at line {s.get('line')}")
+            if 0 in derived and not where:
+                ok = True
+                where.append("return place (call result)")
         if to_call is not None:
             specs = [to_call] if isinstance(to_call, str) else list(to_call)
             for c in body.calls_to(*specs):
